@@ -46,8 +46,12 @@ type c10Phase struct {
 }
 
 type c10Script struct {
-	ID     uint16
-	Phases []c10Phase // phase 2k: client sends, phase 2k+1: server sends
+	ID            uint16
+	Phases        []c10Phase // phase 2k: client sends, phase 2k+1: server sends
+	Rev           bool       // the client instance lives on muxer B (and the server instance on muxer A)
+	RestartBefore []bool     // per phase: both protocol instances are stopped and fresh ones started (same muxers) before it
+	Delays        []int      // handler delays (cycled, both sides): 0 none, 1 Gosched, n>1 sleep us
+	Scribble      bool       // handlers overwrite the bytes of the message they were given
 }
 
 type c10Case struct {
@@ -58,9 +62,17 @@ type c10Case struct {
 	planB   string
 	Procs   int
 	Volume  int
+	SplitA  []int // write splitting of muxer A's / B's connection (header and payload written separately, ...)
+	SplitB  []int
+	Label   string
 }
 
 var c10IDs = []uint16{2, 3, 7, 0x7fff}
+
+// specialMsgSizes: total message sizes next to CBOR head-width changes, to the muxer
+// header size, to common internal buffer sizes and to the segment payload maximum.
+var specialMsgSizes = []int{2, 3, 8, 9, 23, 24, 25, 26, 63, 64, 65, 255, 256, 257, 258, 259, 260, 511, 512, 513,
+	4095, 4096, 4097, 12287, 12288, 12289, 65527, 65534, 65535, 65536, 65543}
 
 // genMsgSize draws a total message size, biased to the 65535 boundaries.
 func genMsgSize(rt *rapid.T, budget int, thorough bool) int {
@@ -70,7 +82,7 @@ func genMsgSize(rt *rapid.T, budget int, thorough bool) int {
 	case 0, 1, 2:
 		s = rapid.IntRange(2, 40).Draw(rt, "msgSize")
 	case 3:
-		s = rapid.SampledFrom([]int{2, 3, 23, 24, 25, 26, 255, 256, 257, 258, 259, 260}).Draw(rt, "msgSize")
+		s = rapid.SampledFrom(specialMsgSizes).Draw(rt, "msgSize")
 	case 4, 5:
 		s = rapid.IntRange(41, 5000).Draw(rt, "msgSize")
 	case 6:
@@ -158,6 +170,56 @@ func genC10Case(rt *rapid.T, thorough bool) *c10Case {
 		}
 		c.Scripts = append(c.Scripts, sc)
 	}
+	// Some conversations run in the opposite direction (client instance on muxer B);
+	// a "twin" is a second, independent conversation on the SAME protocol id with the
+	// roles swapped, so that both roles of that id are registered on both muxers.
+	n0 := len(c.Scripts)
+	for i := 0; i < n0; i++ {
+		switch rapid.IntRange(0, 5).Draw(rt, "revKind") {
+		case 0:
+			c.Scripts[i].Rev = true
+		case 1, 2:
+			tw := c10Script{ID: c.Scripts[i].ID, Rev: true}
+			nPh := rapid.IntRange(1, 3).Draw(rt, "twinPhases")
+			for ph := 0; ph < nPh; ph++ {
+				var p c10Phase
+				dataTyp, turnTyp := blobC2S, blobTurnC
+				if ph%2 == 1 {
+					dataTyp, turnTyp = blobS2C, blobTurnS
+				}
+				n := rapid.IntRange(1, 8).Draw(rt, "twinMsgs")
+				for j := 0; j < n; j++ {
+					m := c10Msg{Typ: dataTyp, Size: genMsgSize(rt, budget, thorough), Seed: rapid.Uint64().Draw(rt, "seed"), Style: genBlobStyle(rt),
+						Mode: rapid.SampledFrom([]int{0, 0, 1, 3}).Draw(rt, "mode")}
+					budget -= m.Size
+					p.Msgs = append(p.Msgs, m)
+				}
+				if ph < nPh-1 {
+					p.Msgs = append(p.Msgs, c10Msg{Typ: turnTyp, Size: 2, Seed: 1})
+				}
+				tw.Phases = append(tw.Phases, p)
+			}
+			c.Scripts = append(c.Scripts, tw)
+		}
+	}
+	for i := range c.Scripts {
+		sc := &c.Scripts[i]
+		sc.RestartBefore = make([]bool, len(sc.Phases))
+		for ph := 2; ph < len(sc.Phases); ph += 2 {
+			// both instances are back in the initial state here (the client has handled TurnS)
+			sc.RestartBefore[ph] = rapid.IntRange(0, 2).Draw(rt, "restart") == 0
+		}
+		if rapid.IntRange(0, 2).Draw(rt, "slowHandlers") == 0 {
+			nd := rapid.IntRange(1, 3).Draw(rt, "nDelays")
+			for j := 0; j < nd; j++ {
+				sc.Delays = append(sc.Delays, rapid.SampledFrom([]int{0, 1, 1, 100}).Draw(rt, "delay"))
+			}
+		}
+		sc.Scribble = rapid.Bool().Draw(rt, "scribble")
+	}
+	splits := [][]int{nil, nil, {8, 100000}, {7, 100000}, {9, 100000}, {1, 7, 100000}, {8, 1, 100000}}
+	c.SplitA = rapid.SampledFrom(splits).Draw(rt, "splitA")
+	c.SplitB = rapid.SampledFrom(splits).Draw(rt, "splitB")
 	return c
 }
 
@@ -191,9 +253,15 @@ func (c *c10Case) describe() map[string]any {
 			}
 			phases = append(phases, map[string]any{"sender": who, "msgs": msgs})
 		}
-		scripts = append(scripts, map[string]any{"protocol_id": sc.ID, "phases": phases})
+		scripts = append(scripts, map[string]any{"protocol_id": sc.ID, "phases": phases, "client_on_muxer_B": sc.Rev,
+			"restart_before_phase": sc.RestartBefore, "handler_delays": sc.Delays, "handlers_overwrite_message": sc.Scribble})
 	}
-	return map[string]any{"scripts": scripts, "client_read_plan": c.planA, "server_read_plan": c.planB, "gomaxprocs": c.Procs}
+	m := map[string]any{"scripts": scripts, "muxerA_read_plan": c.planA, "muxerB_read_plan": c.planB, "gomaxprocs": c.Procs,
+		"muxerA_write_split": c.SplitA, "muxerB_write_split": c.SplitB}
+	if c.Label != "" {
+		m["label"] = c.Label
+	}
+	return m
 }
 
 type c10Fail struct {
@@ -229,12 +297,37 @@ func runC10Case(c *c10Case) (fails []c10Fail, st c10Stats) {
 		patience = c10Patience(c.Volume)
 	}
 	a, b := rawpeer.Pipe(c.PlanA, c.PlanB)
-	var specs []blobProtoSpec
+	// muxer A hosts the client instance of every conversation that is not reversed and
+	// the server instance of every reversed one; muxer B the counterparts
+	var specsA, specsB []blobProtoSpec
 	for _, sc := range c.Scripts {
-		specs = append(specs, blobProtoSpec{id: sc.ID, stateMap: blobStateMap(0, 0)})
+		ra, rb := protocol.ProtocolRoleClient, protocol.ProtocolRoleServer
+		if sc.Rev {
+			ra, rb = rb, ra
+		}
+		specsA = append(specsA, blobProtoSpec{id: sc.ID, stateMap: blobStateMap(0, 0), role: ra})
+		specsB = append(specsB, blobProtoSpec{id: sc.ID, stateMap: blobStateMap(0, 0), role: rb})
 	}
-	cli := newBlobSide(a, protocol.ProtocolRoleClient, true, specs)
-	srv := newBlobSide(b, protocol.ProtocolRoleServer, true, specs)
+	cli := newBlobSide(a, protocol.ProtocolRoleClient, true, specsA)
+	srv := newBlobSide(b, protocol.ProtocolRoleServer, true, specsB)
+	cli.conn.split, srv.conn.split = c.SplitA, c.SplitB
+	for si, sc := range c.Scripts {
+		for _, bp := range []*blobProto{cli.protos[si], srv.protos[si]} {
+			bp.scribble = sc.Scribble
+			if len(sc.Delays) > 0 {
+				delays := sc.Delays
+				bp.onHandle = func(i int, _ *blobMsg) error {
+					switch d := delays[i%len(delays)]; {
+					case d == 1:
+						runtime.Gosched()
+					case d > 1:
+						time.Sleep(time.Duration(d) * time.Microsecond)
+					}
+					return nil
+				}
+			}
+		}
+	}
 	cli.start()
 	srv.start()
 
@@ -256,17 +349,41 @@ func runC10Case(c *c10Case) (fails []c10Fail, st c10Stats) {
 	for si := range c.Scripts {
 		go func(si int) {
 			sc := c.Scripts[si]
-			sides := [2]*blobProto{cli.protos[si], srv.protos[si]}
+			sides := [2]*blobProto{cli.protos[si], srv.protos[si]} // [client instance, server instance]
+			if sc.Rev {
+				sides[0], sides[1] = sides[1], sides[0]
+			}
+			stall, stopStall := stallChan(patience, progress)
+			defer stopStall()
 			recvCount := [2]int{}
 			for pi, ph := range sc.Phases {
 				snd, rcv := sides[pi%2], sides[1-pi%2]
+				if sc.RestartBefore[pi] {
+					// receiver of the coming phase first, so that it is registered again
+					// before the first segment for it can arrive
+					if !rcv.restart(stall) || !snd.restart(stall) {
+						results <- drvRes{si, "C10:restart-hung", fmt.Sprintf("protocol %d before phase %d: a stopped protocol instance did not finish (idle conversation, both sides in the initial state)", sc.ID, pi)}
+						return
+					}
+				}
 				for mi, m := range ph.Msgs {
-					msg := newBlobMsg(m.Typ, m.wire, m.Lazy)
+					// the engine gets its own copy of the encoding: the harness overwrites it
+					// as soon as the engine has no business with it any more
+					buf := append([]byte(nil), m.wire...)
+					msg := newBlobMsg(m.Typ, buf, m.Lazy)
 					var err error
 					if m.Mode == 3 {
 						err = snd.P.SendMessageAndWait(msg)
 					} else {
 						err = snd.P.SendMessage(msg)
+					}
+					if err == nil && (m.Mode == 3 || m.Lazy) {
+						// Mode 3: the last segment has been written to the connection.
+						// Lazy: the engine encoded the message inside SendMessage; what the
+						// encoder read from is the caller's again.
+						for i := range buf {
+							buf[i] = ^buf[i]
+						}
 					}
 					if err != nil {
 						results <- drvRes{si, "C10:send-error", fmt.Sprintf("protocol %d phase %d message %d (%d bytes): SendMessage returned %v", sc.ID, pi, mi, len(m.wire), err)}
@@ -338,11 +455,17 @@ func runC10Case(c *c10Case) (fails []c10Fail, st c10Stats) {
 					}
 				}
 			}
-			rcv := srv.protos[si]
-			segs := wireToSrv
+			// the receiver of direction dir and the connection its segments were read from
+			rcv, segs := srv.protos[si], wireToSrv
+			if (dir == 1) != sc.Rev {
+				rcv, segs = cli.protos[si], wireToCli
+			}
 			dirName := "client->server"
 			if dir == 1 {
-				rcv, segs, dirName = cli.protos[si], wireToCli, "server->client"
+				dirName = "server->client"
+			}
+			if sc.Rev {
+				dirName += " (client on muxer B)"
 			}
 			decoded, handled := rcv.snapshot()
 			where := fmt.Sprintf("protocol %d %s", sc.ID, dirName)
@@ -607,20 +730,27 @@ func runC10BFCase(c *c10BFCase) (fails []c10Fail, st c10Stats, sendQueueHit bool
 				done <- res{"C10:blockfetch:send-error", fmt.Sprintf("RequestRange #%d: %v", bi, err)}
 				return
 			}
-			sentC2S = append(sentC2S, append([]byte(nil), req.Cbor()...))
+			// expected encodings are built by the harness (xcbor), not read back from the library
+			sentC2S = append(sentC2S, xcbor.A(xcbor.U(0),
+				xcbor.A(xcbor.U(uint64(bi*100+1)), xcbor.B(fill(uint64(bi), 32))),
+				xcbor.A(xcbor.U(uint64(bi*100+99)), xcbor.B(fill(uint64(bi)+7, 32)))).Encode())
 			srvWant++
 			if !waitCond(patience, nil, progress, func() bool { return srv.count() >= srvWant }) {
 				done <- res{"C10:blockfetch:not-delivered", fmt.Sprintf("server handled %d of %d requests", srv.count(), srvWant)}
 				return
 			}
 			var msgs []protocol.Message
+			var wires [][]byte
 			msgs = append(msgs, blockfetch.NewMsgStartBatch())
+			wires = append(wires, []byte{0x81, 0x02})
 			for i, s := range sizes {
 				blk := fill(c.Seeds[bi][i], s)
-				blocksSent = append(blocksSent, blk)
-				msgs = append(msgs, blockfetch.NewMsgBlock(blk))
+				blocksSent = append(blocksSent, append([]byte(nil), blk...))
+				msgs = append(msgs, blockfetch.NewMsgBlock(blk)) // keeps a reference to blk
+				wires = append(wires, xcbor.A(xcbor.U(4), xcbor.Tg(24, xcbor.B(blocksSent[len(blocksSent)-1]))).Encode())
 			}
 			msgs = append(msgs, blockfetch.NewMsgBatchDone())
+			wires = append(wires, []byte{0x81, 0x05})
 			inFlight := 0
 			for mi, m := range msgs {
 				est := 16
@@ -645,7 +775,13 @@ func runC10BFCase(c *c10BFCase) (fails []c10Fail, st c10Stats, sendQueueHit bool
 					done <- res{"C10:blockfetch:send-error", fmt.Sprintf("batch %d message %d: %v", bi, mi, err)}
 					return
 				}
-				sentS2C = append(sentS2C, append([]byte(nil), m.Cbor()...))
+				sentS2C = append(sentS2C, wires[mi])
+				if blk, ok := m.(*blockfetch.MsgBlock); ok {
+					// SendMessage has returned: the application may reuse its block buffer
+					for i := range blk.WrappedBlock {
+						blk.WrappedBlock[i] = ^blk.WrappedBlock[i]
+					}
+				}
 			}
 			cliWant += len(msgs)
 			if !waitCond(patience, nil, progress, func() bool { return cli.count() >= cliWant }) {
@@ -775,6 +911,45 @@ func TestC10(t *testing.T) {
 			}
 		}
 	}
+	// fixed sweep: every special message size sent alone (SendMessageAndWait: the batch is
+	// exactly the message), then as one burst in the other direction, then once more after
+	// both instances were restarted; a twin conversation on the same id in the opposite
+	// direction runs at the same time; header and payload are written separately
+	{
+		mk := func(typ uint8, sizes []int, mode int, seed uint64) (out []c10Msg) {
+			for i, sz := range sizes {
+				out = append(out, c10Msg{Typ: typ, Size: sz, Seed: seed + uint64(i), Mode: mode, Lazy: i%5 == 4})
+			}
+			return
+		}
+		all := append(append([]int(nil), specialMsgSizes...), 131069, 131070, 131071, 196605)
+		few := []int{2, 65535, 65536, 3, 131070}
+		main := c10Script{ID: 2, Scribble: true, Phases: []c10Phase{
+			{Msgs: append(mk(blobC2S, all, 3, 100), c10Msg{Typ: blobTurnC, Size: 2, Seed: 1})},
+			{Msgs: append(mk(blobS2C, all, 0, 200), c10Msg{Typ: blobTurnS, Size: 2, Seed: 1})},
+			{Msgs: mk(blobC2S, few, 3, 300)},
+		}, RestartBefore: []bool{false, false, true}}
+		twin := c10Script{ID: 2, Rev: true, Phases: []c10Phase{
+			{Msgs: append(mk(blobC2S, few, 0, 400), c10Msg{Typ: blobTurnC, Size: 2, Seed: 1})},
+			{Msgs: mk(blobS2C, few, 3, 500)},
+		}, RestartBefore: []bool{false, false}}
+		fc := &c10Case{Scripts: []c10Script{main, twin}, PlanA: &rawpeer.SeqPlan{}, PlanB: &rawpeer.SeqPlan{Chunks: []int{7, 0, 9, 0}},
+			planA: "unfragmented", planB: "chunks=[7 0 9 0]", Procs: runtime.GOMAXPROCS(0), Volume: 2 << 20,
+			SplitA: []int{8, 100000}, SplitB: []int{7, 100000}, Label: "fixed special-size sweep with twin conversation and restart"}
+		fc.build()
+		fails, st := runC10Case(fc)
+		rec.Eval()
+		rec.Class("fixed_size_sweep")
+		if st.crossing || st.sharing {
+			rec.NonTrivial(fc.Label, fc.describe())
+		}
+		for _, f := range fails {
+			rec.Violation(f.key, f.what, f.cs)
+		}
+		c10Failed.Store(false)
+		rec.SetExtra("fixed_sweep_message_sizes", all)
+	}
+
 	// fixed instance: a block-fetch server serving one range of 40 blocks of 200 kB
 	// back to back over an unfragmented connection to a fast client
 	{
@@ -864,7 +1039,21 @@ func TestC10(t *testing.T) {
 				}
 			}
 		}
+		twin, rev, restart := false, false, false
+		seen := map[uint16]bool{}
+		for _, sc := range c.Scripts {
+			if seen[sc.ID] {
+				twin = true
+			}
+			seen[sc.ID] = true
+			rev = rev || sc.Rev
+			for _, r := range sc.RestartBefore {
+				restart = restart || r
+			}
+		}
 		cls := map[string]bool{
+			"both_roles_of_one_id_on_a_muxer": twin, "client_on_muxer_B": rev, "protocol_restart_mid_history": restart,
+			"conn_splits_writes":  c.SplitA != nil || c.SplitB != nil,
 			"msg_crosses_segment": st.crossing, "segment_shared_by_msgs": st.sharing, "msg_multiple_of_65535": exact,
 			"msg_ge_1MiB": big, "engine_encoded_msg": lazy, "send_and_wait": wait, "both_directions": both,
 			"msg_spans_ge_3_segments": st.maxSpan >= 3, "segment_with_20_msgs": st.maxShare >= 20,
